@@ -22,6 +22,26 @@ ASSUMPTIONS = ["field values and thresholds are small dyadic numbers / NaN / inf
                "integers (exact in float64 far beyond the sizes used); quotients compared to 1e-9",
                "fcst and obs carry the same coordinate labels in the same stored order (F13 belongs to C04); no dask inputs",
                "float rounding, overflow and signed zero are not modelled"]
+MANIFEST = dict(
+    level="proof",
+    text="Kernel-checked Lean theorems, for all field shapes and windows, about a model of the FSS pipeline whose scalar tails "
+         "(compute_fss, the aggregation step/tail, the order of the component triple) are regenerated from the source on every run: "
+         "cumsum-cumsum with the zero row/column is the summed-area table; without padding the image has (H-h+1)(W-w+1) entries, each "
+         "the direct window count; with zero padding the clipped corners are the direct counts on the field extended by floor(h/2) "
+         "before and h-floor(h/2) after; the score is 1 - sum(po-pf)^2/(sum po^2 + sum pf^2) and 0 for a zero denominator, lies in [0,1] "
+         "without the clamp, is symmetric, is 1 for identical fields with an event, NaN cells are non-events, the binary entry is "
+         "thresholding, and several fields aggregate by the pooled (mean) three sums with a 2-field example differing from the mean of "
+         "scores.  The padded clause of the property holds for even window dimensions (fss_pad_partial) and fails for odd ones "
+         "(fss_pad_counterexample, known finding F5).  Tied to the code by the translator plus an exhaustive/random correspondence on "
+         "scores, images and components, and an independent direct-count oracle (Lean Spec) on fss_2d_single_field / fss_2d / fss_2d_binary.",
+    note="Trusted: Lean kernel; propext/Classical.choice/Quot.sound; py2lean + tools/gen/Fss.py; SV.Fl; the hand model of numpy cumsum / "
+         "clip / fancy indexing / nanmean and of xarray.apply_ufunc(vectorize) + gather_dimensions (compared, not proved); harness "
+         "tolerance 1e-9 on dyadic inputs.  Not modelled: dask inputs, differently ordered coordinates (F13, C04), non-boolean input of "
+         "fss_2d_binary(check_boolean=False), float rounding.  Known finding F5 (odd window + zero padding) is reported as KNOWN-FINDING, "
+         "only when the implementation equals the direct count with the code's asymmetric extension.",
+    technique="Lean 4 theorems over a hand model + translator-regenerated scalar tails; exhaustive small-shape differential correspondence; "
+              "exact direct-count oracle",
+    design="6/C16")
 RULE = ("exhaustive over all shapes up to 3x4 (quick) / 4x4 (thorough) x all windows x both paddings with several field pairs "
         "each, all binary fields of shapes up to 3x3 (thorough; 2x3 quick), random shapes up to 7x9, four operators, NaN cells, "
         "multi-field arrays with extra dims and every reduction; distinct = distinct canonical case; non-trivial = at least "
@@ -189,6 +209,9 @@ def single_stream(ctx, per_config, n_random, boost=False):
         W = rng.randint(1, 9)
         h = rng.choice([1, H, rng.randint(1, H), rng.randint(1, H)])
         w = rng.choice([1, W, rng.randint(1, W), rng.randint(1, W)])
+        if rng.random() < 0.4:      # even windows (the padded mode the property holds for) are rare among small shapes
+            h = 2 * rng.randint(1, H // 2) if H >= 2 else h
+            w = 2 * rng.randint(1, W // 2) if W >= 2 else w
         cases.append(gen_single(rng, H, W, h, w, rng.random() < 0.5))
     return cases
 
@@ -327,8 +350,8 @@ def impl_multi(c, fx, ox):
 
 # ----------------------------------------------------------------------------- correspondence (tie X)
 def correspondence(ctx):
-    per = ctx.n(2, 4)
-    cases = single_stream(ctx, per, ctx.n(150, 1500))
+    per = ctx.n(3, 5)
+    cases = single_stream(ctx, per, ctx.n(400, 3000))
     ctx.exhaustive.append(f"all shapes <= {'4x4' if ctx.thorough else '3x4'} x all windows x both paddings x {per} field pairs")
     cases += binary_stream(ctx)
     ops = [model_op(c, img=True) for c in cases]
@@ -367,7 +390,7 @@ def correspondence(ctx):
         ctx.notes.append(f"backend internals not reachable for {internals_missing} cases (score-level comparison only)")
 
     # multi-field arrays: fss_2d / fss_2d_binary vs model aggregate
-    mcases = [gen_multi(ctx.rng, binary=(i % 4 == 3)) for i in range(ctx.n(60, 500))]
+    mcases = [gen_multi(ctx.rng, binary=(i % 4 == 3)) for i in range(ctx.n(150, 1200))]
     run_multi(ctx, mcases, "impl-vs-model-multi", "correspondence")
 
     # malformed stream: windows that do not fit / are empty must raise a ValueError (DimensionError), as the model says
@@ -574,14 +597,14 @@ AGG_EXAMPLE = dict(kind="multi", binary=False, H=1, W=2, h=1, w=1, pad=False, th
 def oracle(ctx, boost):
     per = ctx.n(2, 3)
     cases = [dict(F5_WITNESS)]
-    cases += single_stream(ctx, per, ctx.n(120, 1200), boost=boost)
+    cases += single_stream(ctx, per, ctx.n(400, 3000), boost=boost)
     if ctx.thorough or boost:
         bs = binary_stream(ctx)
         cases += bs if ctx.thorough else ctx.rng.sample(bs, min(len(bs), 1500))
     check_singles(ctx, cases)
-    mcases = [AGG_EXAMPLE] + [gen_multi(ctx.rng, binary=(i % 4 == 3)) for i in range(ctx.n(50, 400) * (3 if boost else 1))]
+    mcases = [AGG_EXAMPLE] + [gen_multi(ctx.rng, binary=(i % 4 == 3)) for i in range(ctx.n(150, 1200) * (3 if boost else 1))]
     run_multi(ctx, mcases, "multi-vs-pooled-window-count", "property")
-    check_binary_eq(ctx, [gen_multi(ctx.rng) for _ in range(ctx.n(25, 200))])
+    check_binary_eq(ctx, [gen_multi(ctx.rng) for _ in range(ctx.n(60, 500))])
 
 
 def replay(ctx, payload):
